@@ -420,6 +420,13 @@ impl C06 {
             let back_fin: Result<SemifiniteFunction<VecKind, String>, ()> = SemifiniteFunction::try_from(SA::from(ff(f.0.clone(), f.1)));
             let try_ok = matches!(&back, Ok(x) if x.0 .0 == w) && back_fin.is_err();
             let init_ok = <SA as open_hypergraphs::category::Coproduct>::initial_object() == SemifiniteObject::Finite(0);
+            // pre-composition with label arrays of a zero-sized type, also the empty one (0 -> 0)
+            let unit_ok = {
+                let e0: Option<SemifiniteFunction<VecKind, ()>> = compose_semifinite(&ff(vec![], 0), &sf(Vec::<()>::new()));
+                let e1: Option<SemifiniteFunction<VecKind, ()>> = compose_semifinite(&ff(f.0.clone(), f.1), &sf(vec![(); f.1]));
+                let e2: Option<SemifiniteFunction<VecKind, ()>> = compose_semifinite(&ff(f.0.clone(), f.1), &sf(vec![(); f.1 + 1]));
+                matches!(&e0, Some(x) if x.0 .0.is_empty()) && matches!(&e1, Some(x) if x.0 .0.len() == f.0.len()) && e2.is_none()
+            };
             // equality of finite functions compares table and codomain; of label arrays the elements
             let eq_ok = (ff(f.0.clone(), f.1) == ff(f.0.clone(), f.1))
                 && (ff(f.0.clone(), f.1) != ff(f.0.clone(), f.1 + 1))
@@ -430,7 +437,7 @@ impl C06 {
             // (the representation of the identity on the label set, TryFrom and initial_object are not part of
             // the statement: recorded as an observation)
             OBS_SEMIFINITE_EXTRAS.with(|c| c.set(ids_ok && try_ok && init_ok));
-            (src_ok && eq_ok, s_ok, c1, c2, c3, idf)
+            (src_ok && eq_ok && unit_ok, s_ok, c1, c2, c3, idf)
         });
         if res.is_some() {
             ctx.count(if OBS_SEMIFINITE_EXTRAS.with(|c| c.get()) { "observed:semifinite_identity_tryfrom_initial_as_today" } else { "observed:semifinite_identity_tryfrom_initial_differ" });
